@@ -141,7 +141,8 @@ Fixpoint print_tokens (ts : list token) (stack : list bool) (key_next : bool) (n
   end.
 Definition canon_json (ts : list token) : bytes := print_tokens ts [] false false.
 
-Definition max_scan_depth : N := 10000.
+Definition max_scan_depth : N := 10000.      (* encoding/json scanner: maxNestingDepth *)
+Definition max_nesting_depth : N := 10000.   (* internal/codec/decoder.go: maxNestingDepth *)
 
 Section Decode.
   Variable orc : oracles.
@@ -185,10 +186,13 @@ Section Decode.
 
   (* one member value: null leaves the property untouched (and not "set");
      anything else goes through CreateField, which refuses a second value.
-     [dp] is decode_present for this property. *)
-  Definition member_with (dp : list token -> msg -> outcome (msg * list token))
+     [d] is dec.depth on entry of decodeValue, [dp] is decode_present for this
+     property at depth d + 1. *)
+  Definition member_with (d : N) (dp : list token -> msg -> outcome (msg * list token))
              (p : property) (ts : list token) (m : msg) (seen : list bytes)
     : outcome (msg * list token * list bytes) :=
+    (* decodeValue: dec.depth++ and the nesting bound come before anything is read *)
+    if max_nesting_depth <? d + 1 then Err "exceeded max depth" else
     match ts with
     | [] => Err "token"
     | TNull :: r => Ok (m, r, seen)
@@ -226,7 +230,7 @@ Section Decode.
 
   (* decoder.decodeValue & friends.  [m] is the message holding the property
      set being filled, [seen] the json names whose property hasValue. *)
-  Fixpoint decode_present (fuel : nat) (p : property) (ts : list token) (m : msg) {struct fuel}
+  Fixpoint decode_present (fuel : nat) (d : N) (p : property) (ts : list token) (m : msg) {struct fuel}
     : outcome (msg * list token) :=
     match fuel with
     | O => OutOfFuel
@@ -266,7 +270,7 @@ Section Decode.
           | Some (SObject props) =>
             with_holder (p_path p) m (fun n h =>
               let '(sub, h1) := msg_mutable (p_siblings p) n h in
-              obind (object_body f props r sub []) (fun sr =>
+              obind (object_body f d props r sub []) (fun sr =>
                 obind (expect TCloseObj (snd sr)) (fun r2 =>
                   Ok (msg_put n (VMsg (fst sr)) h1, r2))))
           | _ => Err "schema"
@@ -278,12 +282,12 @@ Section Decode.
             match p_path p with
             | [] =>
               (* exposed oneof: the inner properties live in the same message *)
-              obind (oneof_body f props r m [] [] None) (fun sr =>
+              obind (oneof_body f d props r m [] [] None) (fun sr =>
                 obind (expect TCloseObj (snd sr)) (fun r2 => Ok (fst sr, r2)))
             | path =>
               with_holder path m (fun n h =>
                 let '(sub, h1) := msg_mutable (p_siblings p) n h in
-                obind (oneof_body f props r sub [] [] None) (fun sr =>
+                obind (oneof_body f d props r sub [] [] None) (fun sr =>
                   obind (expect TCloseObj (snd sr)) (fun r2 =>
                     Ok (msg_put n (VMsg (fst sr)) h1, r2))))
             end
@@ -295,7 +299,7 @@ Section Decode.
           | FScalar _ | FEnum _ | FObject _ | FOneof _ =>
             with_holder (p_path p) m (fun n h =>
               let existing := match msg_get n h with Some (VList l) => l | _ => [] end in
-              obind (array_items f item r existing) (fun lr =>
+              obind (array_items f d item r existing) (fun lr =>
                 obind (expect TCloseArr (snd lr)) (fun r2 =>
                   Ok (msg_set true (p_siblings p) n (VList (fst lr)) h, r2))))
           | _ => Err "unsupported array item schema"
@@ -306,7 +310,7 @@ Section Decode.
           | FScalar _ | FEnum _ | FObject _ | FOneof _ =>
             with_holder (p_path p) m (fun n h =>
               let existing := match msg_get n h with Some (VMap l) => l | _ => [] end in
-              obind (map_items f item r existing) (fun lr =>
+              obind (map_items f d item r existing) (fun lr =>
                 obind (expect TCloseObj (snd lr)) (fun r2 =>
                   Ok (msg_set true (p_siblings p) n (VMap (fst lr)) h, r2))))
           | _ => Err "unsupported map item schema"
@@ -331,7 +335,7 @@ Section Decode.
     end
 
   (* jsonObjectBody + decodeObjectInner callback *)
-  with object_body (fuel : nat) (props : list property) (ts : list token) (m : msg) (seen : list bytes) {struct fuel}
+  with object_body (fuel : nat) (d : N) (props : list property) (ts : list token) (m : msg) (seen : list bytes) {struct fuel}
     : outcome (msg * list token) :=
     match fuel with
     | O => OutOfFuel
@@ -343,8 +347,8 @@ Section Decode.
             match find_prop props key with
             | None => Err "no such field"
             | Some p =>
-              obind (member_with (decode_present f p) p (snd kt) m seen) (fun r =>
-                let '(m', rest, seen') := r in object_body f props rest m' seen')
+              obind (member_with d (decode_present f (d + 1) p) p (snd kt) m seen) (fun r =>
+                let '(m', rest, seen') := r in object_body f d props rest m' seen')
             end
           | _ => Err "unexpected token, expected object key"
           end)
@@ -352,7 +356,7 @@ Section Decode.
     end
 
   (* decodeOneofInner: the body loop, then the post-checks *)
-  with oneof_body (fuel : nat) (props : list property) (ts : list token) (m : msg) (seen : list bytes)
+  with oneof_body (fuel : nat) (d : N) (props : list property) (ts : list token) (m : msg) (seen : list bytes)
                   (found : list bytes) (constrain : option bytes) {struct fuel}
     : outcome (msg * list token) :=
     match fuel with
@@ -365,16 +369,16 @@ Section Decode.
             if bytes_eqb key type_key then
               obind (next_token (snd kt)) (fun vt =>
                 match fst vt with
-                | TStr s => oneof_body f props (snd vt) m seen found (Some s)
+                | TStr s => oneof_body f d props (snd vt) m seen found (Some s)
                 | _ => Err "unexpected token, expected string"
                 end)
             else
               match find_prop props key with
               | None => Err "no such key"
               | Some p =>
-                obind (member_with (decode_present f p) p (snd kt) m seen) (fun r =>
+                obind (member_with d (decode_present f (d + 1) p) p (snd kt) m seen) (fun r =>
                   let '(m', rest, seen') := r in
-                  oneof_body f props rest m' seen' (found ++ [key]) constrain)
+                  oneof_body f d props rest m' seen' (found ++ [key]) constrain)
               end
           | _ => Err "unexpected token, expected object key"
           end)
@@ -382,7 +386,7 @@ Section Decode.
     end
 
   (* the element loop of decodeArrayProperty *)
-  with array_items (fuel : nat) (item : field_ty) (ts : list token) (acc : list pval) {struct fuel}
+  with array_items (fuel : nat) (d : N) (item : field_ty) (ts : list token) (acc : list pval) {struct fuel}
     : outcome (list pval * list token) :=
     match fuel with
     | O => OutOfFuel
@@ -392,7 +396,7 @@ Section Decode.
         | FScalar k =>
           obind (next_token ts) (fun tr =>
             if is_delim (fst tr) then Err "unexpected token, expected scalar"
-            else obind (append_go_value orc k (fst tr) acc) (fun acc' => array_items f item (snd tr) acc'))
+            else obind (append_go_value orc k (fst tr) acc) (fun acc' => array_items f d item (snd tr) acc'))
         | FEnum ref =>
           obind (next_token ts) (fun tr =>
             if is_delim (fst tr) then Err "unexpected token, expected scalar"
@@ -402,7 +406,7 @@ Section Decode.
                 match lookup e ref with
                 | Some (SEnum prefix opts) =>
                   match option_by_name prefix opts s with
-                  | Some z => obind (list_append (Some (VEnum z)) acc) (fun acc' => array_items f item (snd tr) acc')
+                  | Some z => obind (list_append (Some (VEnum z)) acc) (fun acc' => array_items f d item (snd tr) acc')
                   | None => Err "enum value not found"
                   end
                 | _ => Err "schema"
@@ -413,18 +417,18 @@ Section Decode.
           match lookup e ref with
           | Some (SObject props) =>
             obind (expect TOpenObj ts) (fun r =>
-              obind (object_body f props r [] []) (fun sr =>
+              obind (object_body f d props r [] []) (fun sr =>
                 obind (expect TCloseObj (snd sr)) (fun r2 =>
-                  array_items f item r2 (acc ++ [VMsg (fst sr)]))))
+                  array_items f d item r2 (acc ++ [VMsg (fst sr)]))))
           | _ => Err "schema"
           end
         | FOneof ref =>
           match lookup e ref with
           | Some (SOneof props) =>
             obind (expect TOpenObj ts) (fun r =>
-              obind (oneof_body f props r [] [] [] None) (fun sr =>
+              obind (oneof_body f d props r [] [] [] None) (fun sr =>
                 obind (expect TCloseObj (snd sr)) (fun r2 =>
-                  array_items f item r2 (acc ++ [VMsg (fst sr)]))))
+                  array_items f d item r2 (acc ++ [VMsg (fst sr)]))))
           | _ => Err "schema"
           end
         | _ => Err "unknown array schema type"
@@ -433,7 +437,7 @@ Section Decode.
     end
 
   (* decodeMapField: jsonObjectBody with the per-class callback *)
-  with map_items (fuel : nat) (item : field_ty) (ts : list token) (acc : list (bytes * pval)) {struct fuel}
+  with map_items (fuel : nat) (d : N) (item : field_ty) (ts : list token) (acc : list (bytes * pval)) {struct fuel}
     : outcome (list (bytes * pval) * list token) :=
     match fuel with
     | O => OutOfFuel
@@ -446,7 +450,7 @@ Section Decode.
             | FScalar k =>
               obind (next_token (snd kt)) (fun tr =>
                 if is_delim (fst tr) then Err "unexpected token, expected scalar"
-                else obind (map_set_go_value orc k key (fst tr) acc) (fun acc' => map_items f item (snd tr) acc'))
+                else obind (map_set_go_value orc k key (fst tr) acc) (fun acc' => map_items f d item (snd tr) acc'))
             | FEnum ref =>
               obind (next_token (snd kt)) (fun tr =>
                 match fst tr with
@@ -454,7 +458,7 @@ Section Decode.
                   match lookup e ref with
                   | Some (SEnum prefix opts) =>
                     match option_by_name prefix opts s with
-                    | Some z => obind (map_set_value key (Some (VEnum z)) acc) (fun acc' => map_items f item (snd tr) acc')
+                    | Some z => obind (map_set_value key (Some (VEnum z)) acc) (fun acc' => map_items f d item (snd tr) acc')
                     | None => Err "enum value not found"
                     end
                   | _ => Err "schema"
@@ -468,9 +472,9 @@ Section Decode.
                 match lookup e ref with
                 | Some (SObject props) =>
                   obind (expect TOpenObj (snd kt)) (fun r =>
-                    obind (object_body f props r [] []) (fun sr =>
+                    obind (object_body f d props r [] []) (fun sr =>
                       obind (expect TCloseObj (snd sr)) (fun r2 =>
-                        map_items f item r2 (map_set key (VMsg (fst sr)) acc))))
+                        map_items f d item r2 (map_set key (VMsg (fst sr)) acc))))
                 | _ => Err "schema"
                 end
               end
@@ -481,9 +485,9 @@ Section Decode.
                 match lookup e ref with
                 | Some (SOneof props) =>
                   obind (expect TOpenObj (snd kt)) (fun r =>
-                    obind (oneof_body f props r [] [] [] None) (fun sr =>
+                    obind (oneof_body f d props r [] [] [] None) (fun sr =>
                       obind (expect TCloseObj (snd sr)) (fun r2 =>
-                        map_items f item r2 (map_set key (VMsg (fst sr)) acc))))
+                        map_items f d item r2 (map_set key (VMsg (fst sr)) acc))))
                 | _ => Err "schema"
                 end
               end
@@ -499,11 +503,11 @@ Section Decode.
     match lookup e root with
     | Some (SObject props) =>
       obind (expect TOpenObj ts) (fun r =>
-        obind (object_body fuel props r [] []) (fun sr =>
+        obind (object_body fuel 0 props r [] []) (fun sr =>
           obind (expect TCloseObj (snd sr)) (fun _ => Ok (fst sr))))
     | Some (SOneof props) =>
       obind (expect TOpenObj ts) (fun r =>
-        obind (oneof_body fuel props r [] [] [] None) (fun sr =>
+        obind (oneof_body fuel 0 props r [] [] [] None) (fun sr =>
           obind (expect TCloseObj (snd sr)) (fun _ => Ok (fst sr))))
     | _ => Err "unsupported root schema type"
     end.
@@ -513,3 +517,34 @@ End Decode.
 Definition decode_bytes (orc : oracles) (e : env) (root : bytes) (bs : bytes) : outcome msg :=
   let '(ts, more_at_end) := lex bs in
   decode_tokens orc e more_at_end (S (length ts)) root ts.
+
+(* ------------------------------------------------------------ code facts the model relies on
+   (compared with gen/SwitchGen.v, which is read from the Go AST on every run) *)
+Local Open Scope string_scope.
+(* decodeValue's dispatch: the seven property types of [decode_present] *)
+Definition model_decode_value_arms : list string :=
+  ["MapProperty->decodeMapProperty"; "ArrayProperty->decodeArrayProperty"; "ObjectProperty->decodeObjectProperty";
+   "OneofProperty->decodeOneofProperty"; "EnumProperty->decodeEnum"; "ScalarProperty->decodeScalar";
+   "AnyProperty->decodeAny"; "default"].
+(* null: containers use expectDelimOrNull, scalar/enum compare the token with nil ([member_with] skips a
+   null for all seven), array elements / map values / roots use expectDelim ([expect]: null is an error) *)
+Definition model_null_handling : list (string * string) :=
+  [("decodeAny", "delim-or-null"); ("decodeArrayProperty", "delim-or-null"); ("decodeEnum", "nil-check");
+   ("decodeMapProperty", "delim-or-null"); ("decodeObject", "delim"); ("decodeObjectProperty", "delim-or-null");
+   ("decodeOneof", "delim"); ("decodeOneofProperty", "delim-or-null"); ("decodeScalar", "nil-check")].
+(* [oneof_post] returns from the type-only branch; [append_go_value] / [map_set_go_value] refuse an
+   invalid value before List.Append / Map.Set; integer string arms return the strconv error;
+   protoPair.setValue clears the field on an invalid value *)
+Definition model_oneof_type_only_returns : bool := true.
+Definition model_append_go_value_guarded : bool := true.
+Definition model_map_set_go_value_guarded : bool := true.
+Definition model_int_string_err_returned : list (string * bool) :=
+  [("Integer/FORMAT_INT32", true); ("Integer/FORMAT_INT64", true); ("Integer/FORMAT_UINT32", true); ("Integer/FORMAT_UINT64", true)].
+Definition model_set_value_clears_invalid : bool := true.
+(* a json.Number for a UINT64 field goes through strconv.ParseUint; OptionByName tries the exact
+   short name before trimming the prefix; DateFromString checks the calendar *)
+Definition model_uint64_number_parse_uint : bool := true.
+Definition model_enum_exact_match_first : bool := true.
+Definition model_date_validates_calendar : bool := true.
+(* decodeValue counts the nesting and refuses more than [max_nesting_depth] ([member_with]) *)
+Definition model_decode_value_depth_guard : bool := true.
